@@ -26,9 +26,9 @@ else:
     SPEC_MC = os.path.join(_PRIV, "VmStorage_MC.tla")
 BIN = "vh_vmstorage"
 
-PROPERTIES_WIP = ["C33"]
+PROPERTIES = ["C33"]
 
-MANIFEST_WIP = {
+MANIFEST = {
     "C33": dict(category="model_checking",
                 technique="TLA+ specification of the 13 contract-storage instructions over a plain key-value map (exact BigNat key arithmetic, "
                           "dynamic lengths, panic sets, exact gas incl. a warm set that influences gas only) used as oracle in a TLC trace "
@@ -38,7 +38,8 @@ MANIFEST_WIP = {
                 text="Scripts CALL two deployed contracts (directly and through a forwarding contract) in two consecutive transactions on one "
                      "interpreter and one storage; at every callee entry a generated sequence mixing legacy (SCWQ SRW SRWQ SWW SWWQ) and dynamic "
                      "(SCLR SRDD SRDI SWRD SWRI SUPD SUPI SPLD) instructions on overlapping key ranges (keys 0..3, 2^256-3..2^256-1, 2^64-1, 2^255, "
-                     "random neighbours) is executed through Interpreter::instruction. After every instruction TLC requires: result registers "
+                     "random neighbours) is executed through Interpreter::instruction; a fourth contract consists of real storage-instruction "
+                     "code. After every instruction TLC requires: result registers "
                      "(value, was-set flags, counts, $err), memory written (zero-filled for absent 32-byte slots), the set of admissible panic reasons "
                      "(TooManySlots at the 2^256 boundary, StorageOutOfBounds slices, ownership/overflow, ExpectedInternalContext outside a "
                      "contract), the exact gas charge (cold vs hot read, write, new bytes, clear) and persistent storage = the specification's map; "
@@ -174,7 +175,7 @@ def _selftest_mutator(events, rng):
 
 
 def run(pid, tier):
-    level = MANIFEST_WIP[pid]["category"]
+    level = MANIFEST[pid]["category"]
 
     def body(chk):
         thorough = tier == "thorough"
